@@ -296,7 +296,7 @@ def simulate(rng, tmp, p):
             for v in vs:
                 if v.kind not in p.get("companion_kinds", ("snv",)) or rng.random() >= p["companions"]:
                     continue
-                ck, k, side, dd = rng.choice(["ins", "del"]), rng.randint(1, 6), rng.choice([-1, 1]), rng.randint(1, 7)
+                ck, k, side, dd = rng.choice(["ins", "del"]), rng.randint(1, p.get("companion_max_len", 6)), rng.choice([-1, 1]), rng.randint(1, 7)
                 if ck == "ins":
                     q = v.pos - dd if side < 0 else v.end - 1 + dd
                     if not (5 <= q < L - 5):
